@@ -35,34 +35,34 @@ example : emits 0 .nullish false true = true := by decide
 example : emits 2019 .nullish false true = false := by decide
 example : emits 2019 .nullish true false = true := by decide
 
-/-- the guard sites in the source are exactly the four modelled ones, and every producer of newer syntax is
-    one of: print-through of input syntax (`?.` is only printed for nodes that carry the Optional flag — the three `no-gate`
-    sites; the one function that SETS that flag, toNullishExpr, is called inside the body of the minVersion(2020) gate), or a
-    rewrite inside the body of its gate -/
+/-- The regenerated gate facts (harness/cmd/extract/c16_flags.go; all names resolved through the type checker, so renames,
+    hoisted conditions, helpers and moved code do not matter):
+    * there is exactly one gate function of the shape `o.Version == 0 || v <= o.Version` — the shape `minVersion` of the model;
+    * the versions that are tested are exactly the modelled features' (2015 template literals and shorthand properties,
+      2016 `**`, 2019 optional catch binding, 2020 `??` / `?.`);
+    * every place that CREATES newer syntax is dominated by the gate of its feature: `**` bytes by 2016; a `Nullish` token
+      and setting a node's `Optional` flag (both only in the nullish rewrite) by 2020; template literals by the 2015 gate
+      handed to `minifyString`; `?.` bytes are written only under a test of the node's own `Optional` flag, i.e. copied from the
+      input.  An ungated producer shows up as `…: UNGATED in f`, a producer under the wrong gate with that gate's version. -/
 theorem gates_ok :
-    Verif.Gen.JsVersionGates.gates =
-      ["jsMinifier.minifyExpr: minVersion(2015)", "jsMinifier.minifyExpr: minVersion(2016)",
-       "jsMinifier.minifyStmt: minVersion(2019)", "jsMinifier.optimizeCondExpr: minVersion(2020)"] ∧
+    Verif.Gen.JsVersionGates.gateFunctions = 1 ∧
+    Verif.Gen.JsVersionGates.gateVersions = [2015, 2016, 2019, 2020] ∧
     Verif.Gen.JsVersionGates.producers =
-      ["jsMinifier.minifyAlias: minifyString allowTemplate=false", "jsMinifier.minifyAlias: minifyString allowTemplate=false",
-       "jsMinifier.minifyExpr: minifyString allowTemplate=m.o.minVersion(2015)",
-       "jsMinifier.minifyExpr: write(expBytes) inside minVersion(2016)",
-       "jsMinifier.minifyExpr: write(optChainBytes) inside no-gate", "jsMinifier.minifyExpr: write(optChainBytes) inside no-gate",
-       "jsMinifier.minifyExpr: write(optChainBytes) inside no-gate", "jsMinifier.minifyPropertyName: minifyString allowTemplate=false",
-       "jsMinifier.minifyStmt: minifyString allowTemplate=false", "jsMinifier.minifyStmt: minifyString allowTemplate=false",
-       "jsMinifier.optimizeCondExpr: toNullishExpr inside minVersion(2020)"] := by decide
+      ["bytes **: gated 2016", "bytes ?.: input-flag Optional", "set Optional: gated 2020", "template: gated 2015",
+       "token NullishToken: gated 2020"] := by decide
 
-/-- every CLI flag is bound to the option field its name says -/
+/-- every CLI flag is bound to the option field its name says (`flag=package.Field`; the option struct is identified by its
+    type, the flag name by its constant value) -/
 theorem cli_flags_ok : Verif.Gen.CliFlags.flags =
-    ["css-precision=cssMinifier.Precision", "html-keep-comments=htmlMinifier.KeepComments",
-     "html-keep-conditional-comments=htmlMinifier.KeepConditionalComments",
-     "html-keep-default-attrvals=htmlMinifier.KeepDefaultAttrVals", "html-keep-document-tags=htmlMinifier.KeepDocumentTags",
-     "html-keep-end-tags=htmlMinifier.KeepEndTags", "html-keep-quotes=htmlMinifier.KeepQuotes",
-     "html-keep-special-comments=htmlMinifier.KeepSpecialComments", "html-keep-whitespace=htmlMinifier.KeepWhitespace",
-     "js-keep-var-names=jsMinifier.KeepVarNames", "js-precision=jsMinifier.Precision", "js-version=jsMinifier.Version",
-     "json-keep-numbers=jsonMinifier.KeepNumbers", "json-precision=jsonMinifier.Precision",
-     "svg-keep-comments=svgMinifier.KeepComments", "svg-precision=svgMinifier.Precision",
-     "xml-keep-whitespace=xmlMinifier.KeepWhitespace"] := by decide
+    ["css-precision=css.Precision", "html-keep-comments=html.KeepComments",
+     "html-keep-conditional-comments=html.KeepConditionalComments",
+     "html-keep-default-attrvals=html.KeepDefaultAttrVals", "html-keep-document-tags=html.KeepDocumentTags",
+     "html-keep-end-tags=html.KeepEndTags", "html-keep-quotes=html.KeepQuotes",
+     "html-keep-special-comments=html.KeepSpecialComments", "html-keep-whitespace=html.KeepWhitespace",
+     "js-keep-var-names=js.KeepVarNames", "js-precision=js.Precision", "js-version=js.Version",
+     "json-keep-numbers=json.KeepNumbers", "json-precision=json.Precision",
+     "svg-keep-comments=svg.KeepComments", "svg-precision=svg.Precision",
+     "xml-keep-whitespace=xml.KeepWhitespace"] := by decide
 
 /-- every exported option is either reachable from the CLI or one of the documented library-only options -/
 def libraryOnly : List String := ["css.Inline", "css.KeepCSS2", "html.TemplateDelims", "svg.Inline"]
